@@ -5,7 +5,7 @@ import "verif/mc/checks/gen"
 
 func main() {
 	gen.Main("C04", "exploration",
-		"deterministic enumeration over the schema corpus (feature matrix: proto2/proto3 x 17 kinds x {implicit, optional, required, repeated, packed, unpacked, oneof, map value, map key} + recursion + field-number boundaries) x runtimes {gogo, gv2, legacy, gv1} x value trees (every field alone at every boundary value of its domain incl. zero/empty/nil-vs-empty/127-128-byte payloads/lists of 15..128 elements/maps/nested-in-nested; all-first/all-second/all-last; thorough: all field pairs over reduced domains). Per case, on FRESH structs built through reflection: Size() (separate copy), Marshal(), Size() again, MarshalTo(exact canary-framed window), csproto.Size/Marshal. Second population: message values that came out of the generated Unmarshal of EVERY legal encoding variant of the case (canonical, fields permuted / given twice / split, packed<->unpacked, explicit zero values, non-minimal varints, unknown fields): Size == len(Marshal) == Size afterwards, MarshalTo fills a Size()-byte canary-framed window with the same bytes. distinct_nontrivial = cases with non-empty output.",
+		"deterministic enumeration over the schema corpus (feature matrix: proto2/proto3 x 17 kinds x {implicit, optional, required, repeated, packed, unpacked, oneof, map value, map key} + recursion + field-number boundaries) x runtimes {gogo, gv2, legacy, gv1} x value trees (every field alone at every boundary value of its domain incl. zero/empty/nil-vs-empty/127-128-byte payloads/lists of 15..128 elements/maps/nested-in-nested; all-first/all-second/all-last; thorough: all field pairs over reduced domains). Per case, on FRESH structs built through reflection: Size() (separate copy), Marshal(), Size() again, MarshalTo(exact canary-framed window), csproto.Size/Marshal. Second population: message values that came out of the generated Unmarshal of EVERY legal encoding variant of the case (canonical, fields permuted / given twice / split, packed<->unpacked, explicit zero values, non-minimal varints, unknown fields): Size == len(Marshal) == Size afterwards, MarshalTo fills a Size()-byte canary-framed window with the same bytes. distinct_nontrivial = cases with non-empty output. ROUND 7-9 ADDITIONS: hand-built struct shapes (nil list element, nil map value, oneof wrapper holding nil, typed nil wrapper, shared child; top level and one level down; shapes that read as uninitialised are left to C17); packed payloads of exactly 127/128 (16383/16384) bytes; lists of 4097 (thorough 2049, 8193) elements; all list fields at once with falling / rising lengths; field numbers >= 2^28 in every shape (p3big/p2big); after Size / Marshal / MarshalTo the message still holds the tree it was built from.",
 		"values whose required fields are not all set are C17's business and skipped here",
 		"MarshalTo is compared byte-for-byte with Marshal only when no map has more than one entry (Go map order)")
 }
